@@ -1,1 +1,978 @@
-// harness module for C17 (not written yet)
+// Verification harness for C17 (API conversions), compiled into rustybgpd's unit-test binary only with
+// `--cfg osrg_rustybgp_verif` (+ `--cfg verif_all` or `--cfg verif_c17`).  Child of the crate root via
+// main_hook.rs, so `crate::convert` (crate-private) is reachable.
+//
+// Reads case lines (lean/Rbgp/Api/Codec.lean syntax) from $VERIF_IN, runs the REAL code
+// (`PeerCodec::parse_message`, `convert::attr_to_api/attr_from_api/nlri_to_api/net_from_api`,
+// `Attribute::{encode_to_bytes, as_path_length, as_path_origin}`, `Table::insert`, `apply_import`,
+// `PeerCodec::encode_to`) and writes one observation line per case to $VERIF_OUT.
+#![allow(dead_code, clippy::all)]
+
+use crate::api;
+use crate::convert;
+use rustybgp_packet as packet;
+use rustybgp_table as table;
+
+use packet::bgp::{self, Attribute, FamilyState, ParsedUpdate, PeerCodec};
+use packet::{Family, Nlri, ParsedMessage};
+use std::net::{IpAddr, Ipv4Addr, Ipv6Addr};
+use std::panic::{AssertUnwindSafe, catch_unwind};
+use std::str::FromStr;
+use std::sync::Arc;
+
+#[path = "/verif/harness/common/sexp.rs"]
+mod sexp;
+use sexp::Term;
+
+const U32MAX: u128 = u32::MAX as u128;
+
+/// texts that std parses neither as an IPv4 nor as an IPv6 address (`(bad k)` in a case)
+const BAD: [&str; 12] = [
+    "", "foo", "1.2.3", "1.2.3.4.5", "256.1.1.1", "1.2.3.4/8", " 1.2.3.4", "::g", "1:2:3:4:5:6:7:8:9",
+    "01.2.3.4", "1.2.3.4 ", "10.0.0.0/8/8",
+];
+
+fn as_u128(t: &Term) -> Option<u128> {
+    t.as_atom()?.parse::<u128>().ok()
+}
+fn as_u32(t: &Term) -> Option<u32> {
+    let v = as_u128(t)?;
+    if v > U32MAX { None } else { Some(v as u32) }
+}
+fn nat<N: Into<u128>>(n: N) -> Term {
+    Term::nat(n)
+}
+
+// ------------------------------------------------------------------ address strings
+fn astr_to_string(t: &Term) -> Option<String> {
+    if let Some(a) = t.tagged("ip4") {
+        return Some(Ipv4Addr::from(as_u32(a.first()?)?).to_string());
+    }
+    if let Some(a) = t.tagged("ip6") {
+        return Some(Ipv6Addr::from(as_u128(a.first()?)?).to_string());
+    }
+    if let Some(a) = t.tagged("bad") {
+        let k = as_u32(a.first()?)? as usize;
+        let s = BAD[k % BAD.len()];
+        // the table must really be "bad" for std
+        if Ipv4Addr::from_str(s).is_ok() || Ipv6Addr::from_str(s).is_ok() {
+            return None;
+        }
+        return Some(s.to_string());
+    }
+    None
+}
+fn string_to_astr(s: &str) -> Term {
+    if let Ok(a) = Ipv4Addr::from_str(s) {
+        Term::tag("ip4", vec![nat(u32::from(a))])
+    } else if let Ok(a) = Ipv6Addr::from_str(s) {
+        Term::tag("ip6", vec![nat(u128::from(a))])
+    } else {
+        Term::tag("bad", vec![nat(0u32)])
+    }
+}
+
+// ------------------------------------------------------------------ internal attribute <-> term
+fn attr_t(a: &Attribute) -> Term {
+    let data = if let Some(v) = a.value() {
+        Term::tag("val", vec![nat(v)])
+    } else if a.is_opaque() {
+        Term::tag("opaque", vec![Term::bytes(a.binary().unwrap())])
+    } else {
+        Term::tag("bin", vec![Term::bytes(a.binary().unwrap())])
+    };
+    Term::tag("attr", vec![nat(a.code()), nat(a.flags()), data])
+}
+
+// ------------------------------------------------------------------ API attribute <-> term
+fn extcom_from_term(t: &Term) -> Option<api::ExtendedCommunity> {
+    use api::extended_community::Extcom as E;
+    let e = match t.head()? {
+        "ec-missing" => return Some(api::ExtendedCommunity { extcom: None }),
+        "ec-other" => E::Color(api::ColorExtended { color: 1 }),
+        "ec-unknown" => {
+            let a = t.tagged("ec-unknown")?;
+            E::Unknown(api::UnknownExtended { r#type: as_u32(a.first()?)?, value: a.get(1)?.as_bytes()? })
+        }
+        "two-as" => {
+            let a = t.tagged("two-as")?;
+            E::TwoOctetAsSpecific(api::TwoOctetAsSpecificExtended {
+                is_transitive: a.first()?.as_bool()?,
+                sub_type: as_u32(a.get(1)?)?,
+                asn: as_u32(a.get(2)?)?,
+                local_admin: as_u32(a.get(3)?)?,
+            })
+        }
+        "ip4-as" => {
+            let a = t.tagged("ip4-as")?;
+            E::Ipv4AddressSpecific(api::IPv4AddressSpecificExtended {
+                is_transitive: a.first()?.as_bool()?,
+                sub_type: as_u32(a.get(1)?)?,
+                address: astr_to_string(a.get(2)?)?,
+                local_admin: as_u32(a.get(3)?)?,
+            })
+        }
+        "four-as" => {
+            let a = t.tagged("four-as")?;
+            E::FourOctetAsSpecific(api::FourOctetAsSpecificExtended {
+                is_transitive: a.first()?.as_bool()?,
+                sub_type: as_u32(a.get(1)?)?,
+                asn: as_u32(a.get(2)?)?,
+                local_admin: as_u32(a.get(3)?)?,
+            })
+        }
+        "mup" => {
+            let a = t.tagged("mup")?;
+            E::Mup(api::MupExtended {
+                sub_type: as_u32(a.first()?)?,
+                segment_id2: as_u32(a.get(1)?)?,
+                segment_id4: as_u32(a.get(2)?)?,
+            })
+        }
+        "rate" => {
+            let a = t.tagged("rate")?;
+            E::TrafficRate(api::TrafficRateExtended {
+                asn: as_u32(a.first()?)?,
+                rate: f32::from_bits(as_u32(a.get(1)?)?),
+            })
+        }
+        "action" => {
+            let a = t.tagged("action")?;
+            E::TrafficAction(api::TrafficActionExtended {
+                terminal: a.first()?.as_bool()?,
+                sample: a.get(1)?.as_bool()?,
+            })
+        }
+        "redir2" => {
+            let a = t.tagged("redir2")?;
+            E::RedirectTwoOctetAsSpecific(api::RedirectTwoOctetAsSpecificExtended {
+                asn: as_u32(a.first()?)?,
+                local_admin: as_u32(a.get(1)?)?,
+            })
+        }
+        "remark" => {
+            let a = t.tagged("remark")?;
+            E::TrafficRemark(api::TrafficRemarkExtended { dscp: as_u32(a.first()?)? })
+        }
+        "redir-ip" => {
+            let a = t.tagged("redir-ip")?;
+            E::RedirectIpv4AddressSpecific(api::RedirectIPv4AddressSpecificExtended {
+                address: astr_to_string(a.first()?)?,
+                local_admin: as_u32(a.get(1)?)?,
+            })
+        }
+        "redir4" => {
+            let a = t.tagged("redir4")?;
+            E::RedirectFourOctetAsSpecific(api::RedirectFourOctetAsSpecificExtended {
+                asn: as_u32(a.first()?)?,
+                local_admin: as_u32(a.get(1)?)?,
+            })
+        }
+        _ => return None,
+    };
+    Some(api::ExtendedCommunity { extcom: Some(e) })
+}
+
+fn extcom_t(e: &api::ExtendedCommunity) -> Term {
+    use api::extended_community::Extcom as E;
+    match &e.extcom {
+        None => Term::atom("ec-missing"),
+        Some(E::Unknown(u)) => Term::tag("ec-unknown", vec![nat(u.r#type), Term::bytes(&u.value)]),
+        Some(E::TwoOctetAsSpecific(x)) => Term::tag(
+            "two-as",
+            vec![Term::boolean(x.is_transitive), nat(x.sub_type), nat(x.asn), nat(x.local_admin)],
+        ),
+        Some(E::Ipv4AddressSpecific(x)) => Term::tag(
+            "ip4-as",
+            vec![Term::boolean(x.is_transitive), nat(x.sub_type), string_to_astr(&x.address), nat(x.local_admin)],
+        ),
+        Some(E::FourOctetAsSpecific(x)) => Term::tag(
+            "four-as",
+            vec![Term::boolean(x.is_transitive), nat(x.sub_type), nat(x.asn), nat(x.local_admin)],
+        ),
+        Some(E::Mup(x)) => Term::tag("mup", vec![nat(x.sub_type), nat(x.segment_id2), nat(x.segment_id4)]),
+        Some(E::TrafficRate(x)) => Term::tag("rate", vec![nat(x.asn), nat(x.rate.to_bits())]),
+        Some(E::TrafficAction(x)) => Term::tag("action", vec![Term::boolean(x.terminal), Term::boolean(x.sample)]),
+        Some(E::RedirectTwoOctetAsSpecific(x)) => Term::tag("redir2", vec![nat(x.asn), nat(x.local_admin)]),
+        Some(E::TrafficRemark(x)) => Term::tag("remark", vec![nat(x.dscp)]),
+        Some(E::RedirectIpv4AddressSpecific(x)) => {
+            Term::tag("redir-ip", vec![string_to_astr(&x.address), nat(x.local_admin)])
+        }
+        Some(E::RedirectFourOctetAsSpecific(x)) => Term::tag("redir4", vec![nat(x.asn), nat(x.local_admin)]),
+        Some(_) => Term::atom("ec-other"),
+    }
+}
+
+fn api_attr_from_term(t: &Term) -> Option<api::Attribute> {
+    use api::attribute::Attr as A;
+    let a = match t.head()? {
+        "missing" => return Some(api::Attribute { attr: None }),
+        "other" => A::As4Path(api::As4PathAttribute::default()),
+        "unknown" => {
+            let x = t.tagged("unknown")?;
+            A::Unknown(api::UnknownAttribute {
+                flags: as_u32(x.first()?)?,
+                r#type: as_u32(x.get(1)?)?,
+                value: x.get(2)?.as_bytes()?,
+            })
+        }
+        "origin" => A::Origin(api::OriginAttribute { origin: as_u32(t.tagged("origin")?.first()?)? }),
+        "as-path" => {
+            let segs = t.tagged("as-path")?.first()?.as_list()?;
+            let mut v = Vec::new();
+            for s in segs {
+                let l = s.as_list()?;
+                let ty = as_u32(l.first()?)?;
+                let nums: Option<Vec<u32>> = l.get(1)?.as_list()?.iter().map(as_u32).collect();
+                v.push(api::AsSegment { r#type: ty as i32, numbers: nums? });
+            }
+            A::AsPath(api::AsPathAttribute { segments: v })
+        }
+        "next-hop" => A::NextHop(api::NextHopAttribute { next_hop: astr_to_string(t.tagged("next-hop")?.first()?)? }),
+        "med" => A::MultiExitDisc(api::MultiExitDiscAttribute { med: as_u32(t.tagged("med")?.first()?)? }),
+        "local-pref" => A::LocalPref(api::LocalPrefAttribute { local_pref: as_u32(t.tagged("local-pref")?.first()?)? }),
+        "atomic-aggregate" => A::AtomicAggregate(api::AtomicAggregateAttribute {}),
+        "aggregator" => {
+            let x = t.tagged("aggregator")?;
+            A::Aggregator(api::AggregatorAttribute { asn: as_u32(x.first()?)?, address: astr_to_string(x.get(1)?)? })
+        }
+        "communities" => {
+            let l: Option<Vec<u32>> = t.tagged("communities")?.first()?.as_list()?.iter().map(as_u32).collect();
+            A::Communities(api::CommunitiesAttribute { communities: l? })
+        }
+        "originator-id" => {
+            A::OriginatorId(api::OriginatorIdAttribute { id: astr_to_string(t.tagged("originator-id")?.first()?)? })
+        }
+        "cluster-list" => {
+            let l: Option<Vec<String>> =
+                t.tagged("cluster-list")?.first()?.as_list()?.iter().map(astr_to_string).collect();
+            A::ClusterList(api::ClusterListAttribute { ids: l? })
+        }
+        "large-communities" => {
+            let mut v = Vec::new();
+            for x in t.tagged("large-communities")?.first()?.as_list()? {
+                let l = x.as_list()?;
+                v.push(api::LargeCommunity {
+                    global_admin: as_u32(l.first()?)?,
+                    local_data1: as_u32(l.get(1)?)?,
+                    local_data2: as_u32(l.get(2)?)?,
+                });
+            }
+            A::LargeCommunities(api::LargeCommunitiesAttribute { communities: v })
+        }
+        "ext-communities" => {
+            let l: Option<Vec<api::ExtendedCommunity>> =
+                t.tagged("ext-communities")?.first()?.as_list()?.iter().map(extcom_from_term).collect();
+            A::ExtendedCommunities(api::ExtendedCommunitiesAttribute { communities: l? })
+        }
+        _ => return None,
+    };
+    Some(api::Attribute { attr: Some(a) })
+}
+
+fn api_attr_t(a: &api::Attribute) -> Term {
+    use api::attribute::Attr as A;
+    match &a.attr {
+        None => Term::atom("missing"),
+        Some(A::Unknown(u)) => Term::tag("unknown", vec![nat(u.flags), nat(u.r#type), Term::bytes(&u.value)]),
+        Some(A::Origin(o)) => Term::tag("origin", vec![nat(o.origin)]),
+        Some(A::AsPath(p)) => Term::tag(
+            "as-path",
+            vec![Term::list(
+                p.segments
+                    .iter()
+                    .map(|s| {
+                        Term::list(vec![
+                            nat(s.r#type as u32),
+                            Term::list(s.numbers.iter().map(|n| nat(*n)).collect()),
+                        ])
+                    })
+                    .collect(),
+            )],
+        ),
+        Some(A::NextHop(n)) => Term::tag("next-hop", vec![string_to_astr(&n.next_hop)]),
+        Some(A::MultiExitDisc(m)) => Term::tag("med", vec![nat(m.med)]),
+        Some(A::LocalPref(l)) => Term::tag("local-pref", vec![nat(l.local_pref)]),
+        Some(A::AtomicAggregate(_)) => Term::atom("atomic-aggregate"),
+        Some(A::Aggregator(g)) => Term::tag("aggregator", vec![nat(g.asn), string_to_astr(&g.address)]),
+        Some(A::Communities(c)) => {
+            Term::tag("communities", vec![Term::list(c.communities.iter().map(|n| nat(*n)).collect())])
+        }
+        Some(A::OriginatorId(o)) => Term::tag("originator-id", vec![string_to_astr(&o.id)]),
+        Some(A::ClusterList(c)) => {
+            Term::tag("cluster-list", vec![Term::list(c.ids.iter().map(|s| string_to_astr(s)).collect())])
+        }
+        Some(A::LargeCommunities(c)) => Term::tag(
+            "large-communities",
+            vec![Term::list(
+                c.communities
+                    .iter()
+                    .map(|x| Term::list(vec![nat(x.global_admin), nat(x.local_data1), nat(x.local_data2)]))
+                    .collect(),
+            )],
+        ),
+        Some(A::ExtendedCommunities(c)) => {
+            Term::tag("ext-communities", vec![Term::list(c.communities.iter().map(extcom_t).collect())])
+        }
+        Some(_) => Term::atom("other"),
+    }
+}
+
+// ------------------------------------------------------------------ outcomes
+enum Out<T> {
+    Ok(T),
+    Err,
+    Panic,
+}
+fn out_t<T>(o: &Out<T>, mut f: impl FnMut(&T) -> Term) -> Term {
+    match o {
+        Out::Ok(x) => Term::tag("ok", vec![f(x)]),
+        Out::Err => Term::atom("err"),
+        Out::Panic => Term::atom("panic"),
+    }
+}
+fn unit_out_t(o: &Out<()>) -> Term {
+    Term::atom(match o {
+        Out::Ok(_) => "ok",
+        Out::Err => "err",
+        Out::Panic => "panic",
+    })
+}
+fn guard<T>(f: impl FnOnce() -> T) -> Out<T> {
+    match catch_unwind(AssertUnwindSafe(f)) {
+        Ok(x) => Out::Ok(x),
+        Err(_) => Out::Panic,
+    }
+}
+fn guard_res<T, E>(f: impl FnOnce() -> Result<T, E>) -> Out<T> {
+    match catch_unwind(AssertUnwindSafe(f)) {
+        Ok(Ok(x)) => Out::Ok(x),
+        Ok(Err(_)) => Out::Err,
+        Err(_) => Out::Panic,
+    }
+}
+
+// ------------------------------------------------------------------ wire frames
+fn update_frame(attrs: &[u8], nlri: &[u8]) -> Vec<u8> {
+    let mut f = vec![0xffu8; 16];
+    let total = 19 + 2 + 2 + attrs.len() + nlri.len();
+    f.extend_from_slice(&(total as u16).to_be_bytes());
+    f.push(2);
+    f.extend_from_slice(&0u16.to_be_bytes());
+    f.extend_from_slice(&(attrs.len() as u16).to_be_bytes());
+    f.extend_from_slice(attrs);
+    f.extend_from_slice(nlri);
+    f
+}
+fn attr_tlv(code: u8, flags: u8, val: &[u8]) -> Vec<u8> {
+    let mut v = vec![flags, code];
+    if flags & 0x10 != 0 {
+        v.extend_from_slice(&(val.len() as u16).to_be_bytes());
+    } else {
+        v.push(val.len() as u8);
+    }
+    v.extend_from_slice(val);
+    v
+}
+
+enum Decoded {
+    Stored(Attribute),
+    Rejected,
+    Dropped,
+    ParseError,
+}
+
+/// One attribute through the real UPDATE parser of a four-octet-AS session.  The frame carries no
+/// NLRI, so no mandatory-attribute rule interferes.
+fn decode_attr(code: u8, flags: u8, val: &[u8]) -> Decoded {
+    let frame = update_frame(&attr_tlv(code, flags, val), &[]);
+    let mut codec = PeerCodec::new();
+    codec.two_byte_as = false;
+    codec.set_family(Family::IPV4, FamilyState { addpath_rx: false, addpath_tx: false });
+    match codec.parse_message(&frame) {
+        Ok(ParsedMessage::Update(ParsedUpdate::Routes { attrs, error_attrs, .. })) => {
+            if let Some(a) = attrs.into_iter().find(|a| a.code() == code) {
+                Decoded::Stored(a)
+            } else if error_attrs.iter().any(|e| e.attr_code == code) {
+                Decoded::Rejected
+            } else {
+                Decoded::Dropped
+            }
+        }
+        _ => Decoded::ParseError,
+    }
+}
+
+// ------------------------------------------------------------------ consumers
+fn origin_igp() -> Attribute {
+    Attribute::new_with_value(Attribute::ORIGIN, 0).unwrap()
+}
+fn base_as_path() -> Attribute {
+    Attribute::new_with_bin(Attribute::AS_PATH, vec![2, 1, 0, 0, 0xfd, 0xe9]).unwrap()
+}
+fn path_attrs(a: &Attribute) -> Vec<Attribute> {
+    let mut v = vec![a.clone()];
+    if a.code() != Attribute::ORIGIN {
+        v.push(origin_igp());
+    }
+    if a.code() != Attribute::AS_PATH {
+        v.push(base_as_path());
+    }
+    v
+}
+fn source(n: u8) -> Arc<table::Source> {
+    Arc::new(table::Source::new(
+        IpAddr::V4(Ipv4Addr::new(192, 0, 2, n)),
+        IpAddr::V4(Ipv4Addr::new(192, 0, 2, 254)),
+        65001,
+        65000,
+        Ipv4Addr::new(192, 0, 2, n),
+        table::PeerRole::Ebgp,
+    ))
+}
+fn v4_net() -> Nlri {
+    Nlri::V4(bgp::Ipv4Net { addr: Ipv4Addr::new(10, 0, 0, 0), mask: 8 })
+}
+
+/// two paths with the same attributes from two peers: every step of `impl Ord for RibEntry` ties
+/// up to the router-id step, so every accessor is evaluated on the attributes under test
+fn use_cmp(attrs: &[Attribute], family: Family, net: &Nlri) -> Out<()> {
+    guard(|| {
+        let mut t = table::Table::new(0);
+        let nh = Some(bgp::Nexthop::V4(Ipv4Addr::new(192, 0, 2, 1)));
+        for n in [1u8, 2u8] {
+            let arc = Arc::new(attrs.to_vec());
+            let _ = t.insert(source(n), family, net.clone(), 0, nh, arc, None, false, false, None, 0);
+        }
+    })
+}
+
+fn use_policy(attrs: &[Attribute]) -> Out<Vec<u8>> {
+    guard(|| {
+        let st = table::Statement {
+            name: Arc::from("s"),
+            conditions: vec![table::Condition::AsPathLength(table::Comparison::Ge, 0)],
+            disposition: None,
+            actions: table::Actions {
+                as_prepend: Some(table::AsPrependAction { asn: 65000, repeat: 1, use_left_most: true }),
+                ..Default::default()
+            },
+        };
+        let pol = table::Policy { name: Arc::from("p"), statements: vec![Arc::new(st)] };
+        let asg = table::PolicyAssignment {
+            name: Arc::from("a"),
+            disposition: table::Disposition::Accept,
+            policies: vec![Arc::new(pol)],
+            needs_rpki: false,
+        };
+        let arc = Arc::new(attrs.to_vec());
+        let mut nh = Some(bgp::Nexthop::V4(Ipv4Addr::new(192, 0, 2, 1)));
+        let (_f, out) = table::apply_import(&asg, None, &source(1), &v4_net(), &arc, &mut nh);
+        out.iter()
+            .find(|a| a.code() == Attribute::AS_PATH)
+            .and_then(|a| a.binary().cloned())
+            .unwrap_or_default()
+    })
+}
+
+fn use_msg(attrs: &[Attribute], two_byte: bool) -> Out<()> {
+    guard_res(|| {
+        let mut codec = PeerCodec::new();
+        codec.two_byte_as = two_byte;
+        codec.set_family(Family::IPV4, FamilyState { addpath_rx: false, addpath_tx: false });
+        let msg = bgp::Message::Update(bgp::Update::Reach {
+            family: Family::IPV4,
+            entries: vec![packet::PathNlri { path_id: 0, nlri: v4_net() }],
+            nexthop: Some(bgp::Nexthop::V4(Ipv4Addr::new(192, 0, 2, 1))),
+            attr: Arc::new(attrs.to_vec()),
+        });
+        let mut dst = bytes::BytesMut::with_capacity(8192);
+        codec.encode_to(&msg, &mut dst).map(|_| ())
+    })
+}
+
+fn use_t(a: &Attribute) -> (Term, bool) {
+    let attrs = path_attrs(a);
+    let is_path = a.code() == Attribute::AS_PATH;
+    let len = if is_path { Some(guard(|| a.as_path_length())) } else { None };
+    let origin = if is_path { Some(guard(|| a.as_path_origin())) } else { None };
+    let enc = guard(|| a.encode_to_bytes());
+    let cmp = use_cmp(&attrs, Family::IPV4, &v4_net());
+    let pol = use_policy(&attrs);
+    let m4 = use_msg(&attrs, false);
+    let m2 = use_msg(&attrs, true);
+    let panicked = matches!(len, Some(Out::Panic))
+        || matches!(origin, Some(Out::Panic))
+        || matches!(enc, Out::Panic)
+        || matches!(cmp, Out::Panic)
+        || matches!(pol, Out::Panic)
+        || matches!(m4, Out::Panic)
+        || matches!(m2, Out::Panic);
+    let t = Term::tag(
+        "use",
+        vec![
+            match &len {
+                None => Term::atom("na"),
+                Some(o) => out_t(o, |n| nat(*n as u64)),
+            },
+            match &origin {
+                None => Term::atom("na"),
+                Some(o) => out_t(o, |n| Term::opt(n.map(|x| nat(x)))),
+            },
+            out_t(&enc, |b| Term::bytes(b)),
+            unit_out_t(&cmp),
+            out_t(&pol, |b| Term::bytes(b)),
+            unit_out_t(&m4),
+            unit_out_t(&m2),
+        ],
+    );
+    (t, panicked)
+}
+
+fn modelled_code(code: u8) -> bool {
+    code != 23 && code != 29 && code != 40
+}
+
+fn attr_obs(a: &Attribute) -> Term {
+    let api = guard(|| convert::attr_to_api(a));
+    let back = match &api {
+        Out::Ok(x) => {
+            let x = x.clone();
+            Some(guard_res(move || convert::attr_from_api(x)))
+        }
+        _ => None,
+    };
+    Term::tag(
+        "attr-obs",
+        vec![
+            attr_t(a),
+            Term::tag("api", vec![out_t(&api, api_attr_t)]),
+            Term::tag(
+                "back",
+                vec![match &back {
+                    None => Term::atom("none"),
+                    Some(o) => out_t(o, attr_t),
+                }],
+            ),
+            use_t(a).0,
+        ],
+    )
+}
+
+// ------------------------------------------------------------------ NLRI
+fn rd_t(rd: &packet::rd::RouteDistinguisher) -> Term {
+    use packet::rd::RouteDistinguisher as R;
+    match *rd {
+        R::TwoOctetAs { admin, assigned } => Term::tag("rd2", vec![nat(admin), nat(assigned)]),
+        R::Ipv4 { admin, assigned } => Term::tag("rd-ip", vec![nat(u32::from(admin)), nat(assigned)]),
+        R::FourOctetAs { admin, assigned } => Term::tag("rd4", vec![nat(admin), nat(assigned)]),
+    }
+}
+fn labels_t(l: &packet::mpls::MplsLabelStack) -> Term {
+    Term::list(l.labels().iter().map(|x| nat(x.value())).collect())
+}
+fn nlri_t(n: &Nlri) -> Option<Term> {
+    Some(match n {
+        Nlri::V4(p) => Term::tag("v4", vec![nat(u32::from(p.addr)), nat(p.mask)]),
+        Nlri::V6(p) => Term::tag("v6", vec![nat(u128::from(p.addr)), nat(p.mask)]),
+        Nlri::LabeledV4(x) => {
+            Term::tag("lv4", vec![labels_t(&x.labels), nat(u32::from(x.prefix.addr)), nat(x.prefix.mask)])
+        }
+        Nlri::LabeledV6(x) => {
+            Term::tag("lv6", vec![labels_t(&x.labels), nat(u128::from(x.prefix.addr)), nat(x.prefix.mask)])
+        }
+        Nlri::VpnV4(x) => Term::tag(
+            "vpn4",
+            vec![labels_t(&x.labels), rd_t(&x.rd), nat(u32::from(x.prefix.addr)), nat(x.prefix.mask)],
+        ),
+        Nlri::VpnV6(x) => Term::tag(
+            "vpn6",
+            vec![labels_t(&x.labels), rd_t(&x.rd), nat(u128::from(x.prefix.addr)), nat(x.prefix.mask)],
+        ),
+        _ => return None,
+    })
+}
+
+fn api_rd_from_term(t: &Term) -> Option<api::RouteDistinguisher> {
+    use api::route_distinguisher::Rd as R;
+    let r = match t.head()? {
+        "rd-missing" => return Some(api::RouteDistinguisher { rd: None }),
+        "rd2" => {
+            let a = t.tagged("rd2")?;
+            R::TwoOctetAsn(api::RouteDistinguisherTwoOctetAsn { admin: as_u32(a.first()?)?, assigned: as_u32(a.get(1)?)? })
+        }
+        "rd-ip" => {
+            let a = t.tagged("rd-ip")?;
+            R::IpAddress(api::RouteDistinguisherIpAddress {
+                admin: astr_to_string(a.first()?)?,
+                assigned: as_u32(a.get(1)?)?,
+            })
+        }
+        "rd4" => {
+            let a = t.tagged("rd4")?;
+            R::FourOctetAsn(api::RouteDistinguisherFourOctetAsn { admin: as_u32(a.first()?)?, assigned: as_u32(a.get(1)?)? })
+        }
+        _ => return None,
+    };
+    Some(api::RouteDistinguisher { rd: Some(r) })
+}
+fn api_rd_t(r: &api::RouteDistinguisher) -> Term {
+    use api::route_distinguisher::Rd as R;
+    match &r.rd {
+        None => Term::atom("rd-missing"),
+        Some(R::TwoOctetAsn(x)) => Term::tag("rd2", vec![nat(x.admin), nat(x.assigned)]),
+        Some(R::IpAddress(x)) => Term::tag("rd-ip", vec![string_to_astr(&x.admin), nat(x.assigned)]),
+        Some(R::FourOctetAsn(x)) => Term::tag("rd4", vec![nat(x.admin), nat(x.assigned)]),
+    }
+}
+
+fn u32_list(t: &Term) -> Option<Vec<u32>> {
+    t.as_list()?.iter().map(as_u32).collect()
+}
+
+fn api_nlri_from_term(t: &Term) -> Option<api::Nlri> {
+    use api::nlri::Nlri as N;
+    let n = match t.head()? {
+        "n-missing" => return Some(api::Nlri { nlri: None }),
+        "n-other" => N::Opaque(api::OpaqueNlri::default()),
+        "prefix" => {
+            let a = t.tagged("prefix")?;
+            N::Prefix(api::IpAddressPrefix { prefix: astr_to_string(a.first()?)?, prefix_len: as_u32(a.get(1)?)? })
+        }
+        "labeled" => {
+            let a = t.tagged("labeled")?;
+            N::LabeledPrefix(api::LabeledIpAddressPrefix {
+                labels: u32_list(a.first()?)?,
+                prefix_len: as_u32(a.get(1)?)?,
+                prefix: astr_to_string(a.get(2)?)?,
+            })
+        }
+        "vpn" => {
+            let a = t.tagged("vpn")?;
+            let rd = match a.get(1)? {
+                Term::Atom(s) if s == "none" => None,
+                x => Some(api_rd_from_term(x.tagged("some")?.first()?)?),
+            };
+            N::LabeledVpnIpPrefix(api::LabeledVpnipAddressPrefix {
+                labels: u32_list(a.first()?)?,
+                rd,
+                prefix_len: as_u32(a.get(2)?)?,
+                prefix: astr_to_string(a.get(3)?)?,
+            })
+        }
+        _ => return None,
+    };
+    Some(api::Nlri { nlri: Some(n) })
+}
+
+fn api_nlri_t(n: &api::Nlri) -> Term {
+    use api::nlri::Nlri as N;
+    match &n.nlri {
+        None => Term::atom("n-missing"),
+        Some(N::Prefix(p)) => Term::tag("prefix", vec![string_to_astr(&p.prefix), nat(p.prefix_len)]),
+        Some(N::LabeledPrefix(p)) => Term::tag(
+            "labeled",
+            vec![Term::list(p.labels.iter().map(|x| nat(*x)).collect()), nat(p.prefix_len), string_to_astr(&p.prefix)],
+        ),
+        Some(N::LabeledVpnIpPrefix(p)) => Term::tag(
+            "vpn",
+            vec![
+                Term::list(p.labels.iter().map(|x| nat(*x)).collect()),
+                Term::opt(p.rd.as_ref().map(api_rd_t)),
+                nat(p.prefix_len),
+                string_to_astr(&p.prefix),
+            ],
+        ),
+        Some(_) => Term::atom("n-other"),
+    }
+}
+
+fn fam_of(name: &str) -> Option<Family> {
+    Some(match name {
+        "v4" => Family::IPV4,
+        "v6" => Family::IPV6,
+        "lv4" => Family::IPV4_MPLS,
+        "lv6" => Family::IPV6_MPLS,
+        "vpn4" => Family::IPV4_VPN,
+        "vpn6" => Family::IPV6_VPN,
+        _ => return None,
+    })
+}
+
+/// NLRI bytes through the real UPDATE parser: trailing NLRI field for IPv4 unicast, MP_REACH_NLRI otherwise.
+fn decode_nlris(family: Family, bytes: &[u8]) -> Out<Vec<packet::PathNlri>> {
+    let mut attrs = Vec::new();
+    attrs.extend(attr_tlv(1, 0x40, &[0]));
+    attrs.extend(attr_tlv(2, 0x40, &[2, 1, 0, 0, 0xfd, 0xe9]));
+    let mut nlri: &[u8] = &[];
+    if family == Family::IPV4 {
+        attrs.extend(attr_tlv(3, 0x40, &[192, 0, 2, 1]));
+        nlri = bytes;
+    } else {
+        let mut v = Vec::new();
+        v.extend_from_slice(&family.afi().to_be_bytes());
+        v.push(family.safi());
+        let vpn = family == Family::IPV4_VPN || family == Family::IPV6_VPN;
+        let v6 = family.afi() == 2;
+        let mut nh: Vec<u8> = Vec::new();
+        if vpn {
+            nh.extend_from_slice(&[0u8; 8]);
+        }
+        if v6 {
+            nh.extend_from_slice(&Ipv6Addr::from_str("2001:db8::1").unwrap().octets());
+        } else {
+            nh.extend_from_slice(&[192, 0, 2, 1]);
+        }
+        v.push(nh.len() as u8);
+        v.extend(nh);
+        v.push(0);
+        v.extend_from_slice(bytes);
+        attrs.extend(attr_tlv(14, 0x90, &v));
+    }
+    let frame = update_frame(&attrs, nlri);
+    let mut codec = PeerCodec::new();
+    codec.two_byte_as = false;
+    codec.set_family(Family::IPV4, FamilyState { addpath_rx: false, addpath_tx: false });
+    codec.set_family(family, FamilyState { addpath_rx: false, addpath_tx: false });
+    guard_res(move || match codec.parse_message(&frame) {
+        Ok(ParsedMessage::Update(ParsedUpdate::Routes { reach, mp_reach, error_attrs, .. })) => {
+            if !error_attrs.is_empty() {
+                return Err(());
+            }
+            let r = if family == Family::IPV4 { reach } else { mp_reach };
+            match r {
+                Some(r) if !r.entries.is_empty() => Ok(r.entries),
+                _ => Err(()),
+            }
+        }
+        _ => Err(()),
+    })
+}
+
+fn nlri_obs(n: &Nlri, family: Family) -> Option<Term> {
+    let api = convert::nlri_to_api(n);
+    let a2 = api.clone();
+    let back = guard_res(move || convert::net_from_api(a2, family));
+    let enc = guard(|| n.encode_to_bytes());
+    let mut ok = true;
+    let bt = out_t(&back, |x| match nlri_t(x) {
+        Some(t) => t,
+        None => {
+            ok = false;
+            Term::atom("?")
+        }
+    });
+    if !ok {
+        return None;
+    }
+    Some(Term::tag("n", vec![nlri_t(n)?, api_nlri_t(&api), bt, out_t(&enc, |b| Term::bytes(b))]))
+}
+
+// ------------------------------------------------------------------ exploration (kinds outside the model)
+fn x_fail(why: &str) -> String {
+    format!("(x fail {})", why)
+}
+
+fn explore_attr(code: u8, flags: u8, val: &[u8]) -> String {
+    let a = match decode_attr(code, flags, val) {
+        Decoded::Stored(a) => a,
+        _ => return "(x ok)".into(),
+    };
+    let api = match guard(|| convert::attr_to_api(&a)) {
+        Out::Ok(x) => x,
+        _ => return x_fail("to-api-panics"),
+    };
+    match guard_res(move || convert::attr_from_api(api)) {
+        Out::Ok(b) => {
+            if b != a {
+                if b.code() == a.code() && b.binary() == a.binary() && b.value() == a.value() {
+                    return x_fail("roundtrip-flags-differ");
+                }
+                return x_fail("roundtrip-value-differs");
+            }
+        }
+        Out::Err => return x_fail("roundtrip-value-rejected"),
+        Out::Panic => return x_fail("from-api-panics"),
+    }
+    if use_t(&a).1 {
+        return x_fail("value-crashes-consumer");
+    }
+    "(x ok)".into()
+}
+
+fn explore_nlri(afi: u16, safi: u8, bytes: &[u8]) -> String {
+    let family = Family::new(afi, safi);
+    let entries = match decode_nlris(family, bytes) {
+        Out::Ok(e) => e,
+        Out::Err => return "(x ok)".into(),
+        Out::Panic => return x_fail("decoder-panics"),
+    };
+    for e in entries {
+        let n = e.nlri;
+        let api = match guard(|| convert::nlri_to_api(&n)) {
+            Out::Ok(x) => x,
+            _ => return x_fail("to-api-panics"),
+        };
+        match guard_res(move || convert::net_from_api(api, family)) {
+            Out::Ok(b) => {
+                if b != n {
+                    return x_fail("roundtrip-value-differs");
+                }
+            }
+            Out::Err => return x_fail("roundtrip-value-rejected"),
+            Out::Panic => return x_fail("from-api-panics"),
+        }
+        if matches!(guard(|| n.encode_to_bytes()), Out::Panic) {
+            return x_fail("value-crashes-encode");
+        }
+        let attrs = vec![origin_igp(), base_as_path()];
+        if matches!(use_cmp(&attrs, family, &n), Out::Panic) {
+            return x_fail("value-crashes-table-insert");
+        }
+    }
+    "(x ok)".into()
+}
+
+// ------------------------------------------------------------------ cases
+const BAD_CASE: &str = "(bad-case)";
+
+fn run_case(line: &str) -> String {
+    let Some(t) = Term::parse(line) else { return BAD_CASE.into() };
+    let Some(head) = t.head() else { return BAD_CASE.into() };
+    let Some(l) = t.as_list() else { return BAD_CASE.into() };
+    match head {
+        "attr-wire" => {
+            if l.len() != 4 {
+                return BAD_CASE.into();
+            }
+            let (Some(code), Some(flags), Some(val)) = (as_u128(&l[1]), as_u128(&l[2]), l[3].as_bytes()) else {
+                return BAD_CASE.into();
+            };
+            if code > 255 || flags > 255 || !modelled_code(code as u8) || code == 14 || code == 15 {
+                return BAD_CASE.into();
+            }
+            if val.len() > 3000 || (flags & 0x10 == 0 && val.len() > 255) {
+                return BAD_CASE.into();
+            }
+            match decode_attr(code as u8, flags as u8, &val) {
+                Decoded::Stored(a) => attr_obs(&a).to_string(),
+                Decoded::Rejected => "(not-stored rejected)".into(),
+                Decoded::Dropped => "(not-stored dropped)".into(),
+                Decoded::ParseError => "(not-stored parse-error)".into(),
+            }
+        }
+        "attr-api" => {
+            if l.len() != 2 {
+                return BAD_CASE.into();
+            }
+            let Some(x) = api_attr_from_term(&l[1]) else { return BAD_CASE.into() };
+            match guard_res(move || convert::attr_from_api(x)) {
+                Out::Ok(a) => {
+                    if !modelled_code(a.code()) {
+                        return BAD_CASE.into();
+                    }
+                    attr_obs(&a).to_string()
+                }
+                Out::Err => "(from err)".into(),
+                Out::Panic => "(from panic)".into(),
+            }
+        }
+        "nlri-wire" => {
+            if l.len() != 3 {
+                return BAD_CASE.into();
+            }
+            let (Some(f), Some(b)) = (l[1].as_atom().and_then(fam_of), l[2].as_bytes()) else {
+                return BAD_CASE.into();
+            };
+            if b.len() > 3000 {
+                return BAD_CASE.into();
+            }
+            match decode_nlris(f, &b) {
+                Out::Ok(entries) => {
+                    let mut v = Vec::new();
+                    for e in &entries {
+                        match nlri_obs(&e.nlri, f) {
+                            Some(t) => v.push(t),
+                            None => return "(harness-unexpected-nlri-kind)".into(),
+                        }
+                    }
+                    Term::tag("nlris", v).to_string()
+                }
+                Out::Err => "(decode err)".into(),
+                Out::Panic => "(decode panic)".into(),
+            }
+        }
+        "nlri-api" => {
+            if l.len() != 2 {
+                return BAD_CASE.into();
+            }
+            let Some(x) = api_nlri_from_term(&l[1]) else { return BAD_CASE.into() };
+            match guard_res(move || convert::net_from_api(x, Family::IPV4)) {
+                Out::Ok(n) => {
+                    let f = match &n {
+                        Nlri::V4(_) => Family::IPV4,
+                        Nlri::V6(_) => Family::IPV6,
+                        Nlri::LabeledV4(_) => Family::IPV4_MPLS,
+                        Nlri::LabeledV6(_) => Family::IPV6_MPLS,
+                        Nlri::VpnV4(_) => Family::IPV4_VPN,
+                        Nlri::VpnV6(_) => Family::IPV6_VPN,
+                        _ => Family::IPV4,
+                    };
+                    match nlri_obs(&n, f) {
+                        Some(t) => Term::tag("nlris", vec![t]).to_string(),
+                        None => "(harness-unexpected-nlri-kind)".into(),
+                    }
+                }
+                Out::Err => "(from err)".into(),
+                Out::Panic => "(from panic)".into(),
+            }
+        }
+        "x" => {
+            // (x attr-<name> CODE FLAGS xBYTES) | (x nlri-<name> AFI SAFI xBYTES)
+            let Some(kind) = l.get(1).and_then(|k| k.as_atom()) else { return BAD_CASE.into() };
+            if l.len() != 5 {
+                return BAD_CASE.into();
+            }
+            let (Some(a), Some(b), Some(bytes)) = (as_u128(&l[2]), as_u128(&l[3]), l[4].as_bytes()) else {
+                return BAD_CASE.into();
+            };
+            if bytes.len() > 3000 {
+                return BAD_CASE.into();
+            }
+            if kind.starts_with("attr-") {
+                if a > 255 || b > 255 || (b & 0x10 == 0 && bytes.len() > 255) {
+                    return BAD_CASE.into();
+                }
+                explore_attr(a as u8, b as u8, &bytes)
+            } else if kind.starts_with("nlri-") {
+                if a > 65535 || b > 255 {
+                    return BAD_CASE.into();
+                }
+                explore_nlri(a as u16, b as u8, &bytes)
+            } else {
+                BAD_CASE.into()
+            }
+        }
+        _ => BAD_CASE.into(),
+    }
+}
+
+#[test]
+fn verif_main() {
+    let (Ok(prop), Ok(inp), Ok(out)) = (
+        std::env::var("VERIF_PROP"),
+        std::env::var("VERIF_IN"),
+        std::env::var("VERIF_OUT"),
+    ) else {
+        return; // not invoked by /verif/check
+    };
+    if prop != "C17" {
+        return;
+    }
+    std::panic::set_hook(Box::new(|_| {}));
+    sexp::run_lines(&inp, &out, |l| {
+        let l = l.to_string();
+        catch_unwind(move || run_case(&l)).unwrap_or_else(|_| "(panic)".into())
+    });
+    let _ = std::panic::take_hook();
+}
